@@ -1,6 +1,6 @@
 /-
   C05 — candidate clusters group protoclusters by the documented kinds.
-  Property theorems only; helper lemmas in ASV/Proofs/{MergeSets,Candidates,Coverage,Members,SpecBridge,NoDup,Passes,Total,HybridWindow}.lean.
+  Property theorems only; helper lemmas in ASV/Proofs/{MergeSets,Candidates,Coverage,Members,SpecBridge,NoDup,Passes,Total,HybridWindow,PermInvariant}.lean.
 
   Model: ASV/Model/Candidates.lean (formation.py after the repairs D16, D19, D501–D507).
   `formation ps wrap` is `create_candidates_from_protoclusters(protoclusters, circular_wrap_point)`;
@@ -8,7 +8,7 @@
   only hypothesis on the input is `ps.Nodup` (no protocluster object supplied twice), and only where
   counting is involved.  Every theorem holds for all inputs, linear and circular, of any size.
 -/
-import ASV.Proofs.HybridWindow
+import ASV.Proofs.PermInvariant
 namespace ASV.C05
 open ASV ASV.CC ASV.CC.Spec
 
@@ -227,14 +227,49 @@ theorem neighbouring_groups_are_overlap_classes (singles : List Proto) (cands : 
       Linked (overlapGroups (neighbourUnits singles cands)) a b :=
   findNeighbouring_classes singles cands a b
 
-/-- Not proved (left to the correspondence, which compares every implementation output with
-    `Spec.reference` and re-runs every case under permutations of the input): the composition of the
-    three passes with the coordinate table equals the reference, and hence the result as a set does
-    not depend on the order of the input. -/
-def FormationIsOrderIndependent : Prop :=
-  ∀ (ps qs : List Proto) (wrap : Option Int) (cs ds : List Cand), ps.Nodup → ps.Perm qs →
-    formation ps wrap = .ok cs → formation qs wrap = .ok ds →
-    (∀ c, c ∈ cs → ∃ d, d ∈ ds ∧ d.kind = c.kind ∧ d.loc = c.loc ∧ sameMembers c.members d.members = true)
+/-! ### 6. the result does not depend on the order in which the protoclusters are supplied -/
+
+/-- `create_candidates_from_protoclusters` returns the **same ordered list** — same candidates in the
+    same order, members in the same order, same locations; or the same error — for every permutation
+    of its input, on linear and circular records alike.  After fix D507 the function starts with
+    `_sorted_protoclusters(protoclusters)`, whose pre-sort by `(product, core start, core end)` is a
+    strict total order when no two protoclusters have the same product and the same core
+    (`DistinctKeys`; in the pipeline one rule never yields two protoclusters with the same core), so
+    the list everything else is computed from is already independent of the input order. -/
+theorem formation_perm_invariant (ps qs : List Proto) (wrap : Option Int) (hn : ps.Nodup)
+    (hk : ∀ a b, a ∈ ps → b ∈ ps → a ≠ b → (a.product, a.core.start, a.core.end) ≠ (b.product, b.core.start, b.core.end))
+    (hp : ps.Perm qs) : formation ps wrap = formation qs wrap :=
+  formation_perm wrap hn hk hp
+
+/-- … in the weaker form of the property text (the outcome as a set of candidates) -/
+theorem formation_is_order_independent (ps qs : List Proto) (wrap : Option Int) (cs ds : List Cand) (hn : ps.Nodup)
+    (hk : ∀ a b, a ∈ ps → b ∈ ps → a ≠ b → (a.product, a.core.start, a.core.end) ≠ (b.product, b.core.start, b.core.end))
+    (hp : ps.Perm qs) (h1 : formation ps wrap = .ok cs) (h2 : formation qs wrap = .ok ds) :
+    ∀ c, c ∈ cs → ∃ d, d ∈ ds ∧ d.kind = c.kind ∧ d.loc = c.loc ∧ d.members = c.members := by
+  rw [formation_perm_invariant ps qs wrap hn hk hp, h2] at h1
+  injection h1 with h1
+  subst h1
+  intro c hc
+  exact ⟨c, hc, rfl, rfl, rfl⟩
+
+/-- the hypothesis cannot be dropped: two protoclusters with identical coordinates, identical core and
+    the same product are told apart by nothing, and the order of the members follows the input -/
+theorem formation_perm_needs_distinct_keys :
+    summary (formation [⟨0, .simple ⟨80, 130, .fwd⟩, .simple ⟨90, 120, .fwd⟩, [1], "a"⟩,
+                        ⟨1, .simple ⟨80, 130, .fwd⟩, .simple ⟨90, 120, .fwd⟩, [1], "a"⟩] none) =
+      some [(.hybrid, [0, 1])] ∧
+    summary (formation [⟨1, .simple ⟨80, 130, .fwd⟩, .simple ⟨90, 120, .fwd⟩, [1], "a"⟩,
+                        ⟨0, .simple ⟨80, 130, .fwd⟩, .simple ⟨90, 120, .fwd⟩, [1], "a"⟩] none) =
+      some [(.hybrid, [1, 0])] := by decide +kernel
+
+/-- Not proved: the composition of the three passes with the coordinate table equals `Spec.reference`
+    (the correspondence compares every implementation output with it).  The per-pass theorems of
+    section 5 give the groups of each pass; the table step is covered by sections 2–4. -/
+def FormationRefinesReference : Prop :=
+  ∀ (ps : List Proto) (wrap : Option Int) (cs : List Cand) (es : List (Kind × List Proto)), ps.Nodup →
+    formation ps wrap = .ok cs → reference ps wrap = .ok es →
+    (∀ c, c ∈ cs → ∃ e, e ∈ es ∧ e.1 = c.kind ∧ sameMembers c.members e.2 = true) ∧
+    (∀ e, e ∈ es → ∃ c, c ∈ cs ∧ e.1 = c.kind ∧ sameMembers c.members e.2 = true)
 
 /-! ### non-vacuity -/
 
